@@ -216,7 +216,7 @@ Section InterpInv.
   Ltac weak := first [ apply INV_weaken; solve [inv_auto] ].
 
   (* cleanup keeps [failed] unless a cleanup function signals; it rewrites the rest of the state *)
-  Lemma inv_cleanup_loop : forall fuel last, INVb false (cleanup_loop crun fuel last).
+  Lemma inv_cleanup_loop inner : forall fuel last, INVb false (cleanup_loop crun inner fuel last).
   Proof.
     induction fuel as [|f IH]; intros last; cbn [cleanup_loop]; [weak|].
     apply inv_bind; [apply inv_pop_cleanup|intros c].
@@ -224,12 +224,14 @@ Section InterpInv.
     apply inv_try; [apply INV_weaken, Hcrun|].
     intros [v|e]; [apply IH|].
     destruct e; try apply IH.
-    - apply inv_bind; [destruct (internal_msg m); weak|intros _].
-      apply inv_bind; [apply inv_note_skip|intros; apply IH].
+    - destruct (inner && internal_msg m).
+      + apply inv_bind; [weak|intros _; apply IH].
+      + apply inv_bind; [destruct (internal_msg m); weak|intros _].
+        apply inv_bind; [apply inv_note_skip|intros; apply IH].
     - weak.
   Qed.
 
-  Lemma inv_cleanup : INVb false (cleanup LF crun).
+  Lemma inv_cleanup inner : INVb false (cleanup LF crun inner).
   Proof.
     unfold cleanup. apply inv_bind; [apply inv_begin_cleanup|intros _].
     apply inv_bind; [apply inv_cleanup_loop|intros r].
@@ -250,9 +252,10 @@ Section InterpInv.
     apply inv_try; [apply INV_weaken; apply inv_try; [exact Hb|apply inv_custom_end]|intros r].
     unfold custom_handler.
     assert (H : INVb false (
-                 c <- cleanup LF crun ;;
+                 c <- cleanup LF crun true ;;
                  t0 <- get_ts ;;
                  match c, r with
+                 | Some (XInvalid m), _ => match failed t0 with Some _ => throw (XInvalid m) | None => ret None end
                  | Some e, Err (XInvalid m) => _ <- (if internal_msg m then mark_dirty else ret tt) ;; throw e
                  | Some e, _ => throw e
                  | None, Ok v => ret (Some v)
@@ -261,9 +264,8 @@ Section InterpInv.
                  end)).
     { apply inv_bind; [apply inv_cleanup|intros c].
       apply inv_bind; [weak|intros t0].
-      destruct c as [e|]; destruct r as [v|e']; try weak.
-      - destruct e'; try weak. apply inv_bind; [destruct (internal_msg m); weak|intros; weak].
-      - destruct e'; try weak. destruct (failed t0); weak. }
+      destruct c as [[]|]; destruct r as [v|[]]; try weak; try (destruct (failed t0); weak);
+        (apply inv_bind; [destruct (internal_msg _); weak|intros; weak]). }
     destruct r as [v|[]]; try exact H. weak.
   Qed.
   Lemma inv_custom_att (body : M val) : INV body -> INV (custom_att LF crun body).
